@@ -718,25 +718,22 @@ theorem addLineCount_sim (hρ : ValRel ρ) (f : Func) {cL cR : Cnt} (hc : CntRel
     {ex : Bool} {lsL : List (Nat × Nat)} (h : addLineCount f cL = ok (ex, lsL)) :
     ∃ lsR, addLineCount f cR = ok (ex, lsR) ∧ LRel ρ lsL lsR := by
   unfold addLineCount at h ⊢
-  cases ha : f.arcs with
-  | nil => rw [ha] at h; cases h
-  | cons a as =>
-    rw [ha] at h; simp only at h ⊢
-    have hpos : decide (cL.arc 0 > 0) = decide (cR.arc 0 > 0) := by
-      have := hρ.pos (hc.1 0)
-      by_cases h0 : cL.arc 0 > 0
-      · simp [h0, this.1 h0]
-      · have : ¬ cR.arc 0 > 0 := fun h1 => h0 (this.2 h1)
-        simp [h0, this]
-    rw [← hpos]
-    split
-    · rename_i hx; rw [if_pos hx] at h
-      obtain ⟨ls, h1, h2⟩ := bind_eq_ok.1 h
-      cases h2
-      obtain ⟨ls', h1', hl⟩ := lineCounts_sim hρ f hc _ _ _ _ h1 (fun _ => hρ.zero)
-      exact ⟨ls', by simp only [h1', bind_ok], hl⟩
-    · rename_i hx; rw [if_neg hx] at h; cases h
-      exact ⟨_, rfl, zeroLines_rel hρ _ _ _ ARel.nil⟩
+  have hpos : entered f cL = entered f cR := by
+    have := hρ.pos (hc.1 0)
+    unfold entered
+    by_cases h0 : cL.arc 0 > 0
+    · simp [h0, this.1 h0]
+    · have : ¬ cR.arc 0 > 0 := fun h1 => h0 (this.2 h1)
+      simp [h0, this]
+  rw [← hpos]
+  split
+  · rename_i hx; rw [if_pos hx] at h
+    obtain ⟨ls, h1, h2⟩ := bind_eq_ok.1 h
+    cases h2
+    obtain ⟨ls', h1', hl⟩ := lineCounts_sim hρ f hc _ _ _ _ h1 (fun _ => hρ.zero)
+    exact ⟨ls', by simp only [h1', bind_ok], hl⟩
+  · rename_i hx; rw [if_neg hx] at h; cases h
+    exact ⟨_, rfl, zeroLines_rel hρ _ _ _ ARel.nil⟩
 
 /-! ### finalize -/
 
